@@ -27,7 +27,9 @@ GSpec == GInit /\ [][GNext]_gvars
 \* Part 1b: "wide" type-level projects - N alternatives wherever the compiler picks one or numbers things in iteration order:
 \* several candidate discriminator keys, many properties / union members / aliases / requested parsers / enum members /
 \* generic instantiations.  A state is (shape, width); lib/p_determinism.py renders it.
-Shapes == {"multidisc", "manyprops", "manyaliases", "manyroots", "manyenums", "manygenerics", "nesteddisc", "intersections"}
+Shapes == {"multidisc", "manyprops", "manyaliases", "manyroots", "manyenums", "manygenerics", "nesteddisc", "intersections",
+           \* several files written from one template: documentation comments at the same offsets in different files
+           "twindocs"}
 WInit == shape \in Shapes /\ width \in 2..(NExports + 3) /\ kinds = <<>> /\ style = "none"
 WSpec == WInit /\ [][UNCHANGED gvars]_gvars
 
